@@ -45,7 +45,7 @@ OK    == <<"ok", "">>
 InitState ==
   [ cell |-> <<>>, known |-> {}, dead |-> {}, cnt |-> <<>>, parent |-> <<>>,
     hreg |-> <<>>, greg |-> <<>>, xreg |-> <<>>, xcont |-> <<>>, pend |-> <<>>, preg |-> <<>>, ever |-> <<>>,
-    used |-> {}, exempt |-> {}, upanic |-> FALSE, alive |-> {}, peak |-> 0 ]
+    used |-> {}, exempt |-> {}, upanic |-> FALSE, alive |-> {}, peak |-> 0, tnode |-> <<>> ]
 
 Put(f, k, v) == (k :> v) @@ f
 Del(f, k)    == [x \in (DOMAIN f) \ {k} |-> f[x]]
@@ -198,6 +198,10 @@ RcuFE(s, e) == SetTop(s, e.t, [Top(s, e.t) EXCEPT !.fcur = e.cur])
 RetV(s, e) ==
   LET p == WriterOf(s, e.t) IN
   CASE p.op # e.op /\ e.op # "noop" -> <<"HARNESS", "return does not match the pending operation">>
+    [] "tn" \in DOMAIN e /\ e.tn >= 0 /\ e.tu # 1
+         -> <<"C11+C10", "a thread goes on using bookkeeping that is not reserved for it (given up or in cool-down): another thread can claim it">>
+    [] "tn" \in DOMAIN e /\ e.tn >= 0 /\ \E u \in s.alive \ {e.t} : Get(s.tnode, u) = e.tn
+         -> <<"C11", "two live threads own the same bookkeeping">>
     [] e.op \in ReadingOps /\ e.v \notin p.seen /\ Foreign(s, p.c, e.v)
          -> <<"C03+C12", "load returned a value that was only ever stored in another container">>
     [] e.op \in ReadingOps /\ e.v \notin p.seen
@@ -234,7 +238,9 @@ RetV(s, e) ==
 
 RetE(s, e) ==
   LET p  == Top(s, e.t)
-      s0 == [Pop(s, e.t) EXCEPT !.used = @ \cup (IF e.op \in ReadingOps \cup WritingOps THEN {e.t} ELSE {})]
+      s1 == [Pop(s, e.t) EXCEPT !.used = @ \cup (IF e.op \in ReadingOps \cup WritingOps THEN {e.t} ELSE {})]
+      \* (after `texit` the thread-local destructors run: the node is given up there, nothing is recorded any more)
+      s0 == IF "tn" \in DOMAIN e /\ Get(s.tnode, e.t) # -9 THEN [s1 EXCEPT !.tnode = Put(@, e.t, e.tn)] ELSE s1
   IN CASE e.op = "new"           -> [s0 EXCEPT !.cell = Put(@, e.c, e.v), !.ever = Put(@, e.c, {e.v})]
        [] e.op = "acc_load"      -> [s0 EXCEPT !.preg = Put(@, e.r, e.v)]
        [] e.op = "load"          -> [s0 EXCEPT !.greg = Put(@, e.r, e.v)]
@@ -332,6 +338,7 @@ Effect(s, e) ==
     [] e.e = "panic"   -> PanicE(s, e)
     [] e.e \in {"setgen", "tls_dtor"} -> [s EXCEPT !.exempt = @ \cup {e.t}]
     [] e.e = "tstart" -> [s EXCEPT !.alive = @ \cup {e.t}, !.peak = IF Cardinality(s.alive \cup {e.t}) > @ THEN Cardinality(s.alive \cup {e.t}) ELSE @]
-    [] e.e = "gone"   -> [s EXCEPT !.alive = @ \ {e.t}]
+    [] e.e = "texit"  -> [s EXCEPT !.tnode = Put(@, e.t, -9)]
+    [] e.e = "gone"   -> [s EXCEPT !.alive = @ \ {e.t}, !.tnode = Put(@, e.t, -9)]
     [] OTHER -> s
 =============================================================================
